@@ -712,6 +712,23 @@ static RESPAWN_MODE: std::sync::atomic::AtomicBool = std::sync::atomic::AtomicBo
 /// preemption level the next parallel run starts at: 0 as planned, 1 no edge points, 2 task-granular
 static START_LEVEL: std::sync::atomic::AtomicU8 = std::sync::atomic::AtomicU8::new(0);
 
+/// The code under test uses thread-locals (see /verif/check): user closures run to completion, because all
+/// simulated tasks share one OS thread and an in-closure switch would let two tasks see one thread-local that
+/// real worker threads keep apart (an artefact that could raise an alarm on correct code).
+static TLS_MODE: std::sync::atomic::AtomicBool = std::sync::atomic::AtomicBool::new(false);
+
+pub fn tls_mode() -> bool {
+    TLS_MODE.load(std::sync::atomic::Ordering::SeqCst)
+}
+
+/// Read the list of thread-local symbols of the parallel build written by `./check` next to this binary.
+pub fn init_tls_mode() -> Vec<String> {
+    let Some(p) = std::env::current_exe().ok().and_then(|e| e.parent().map(|d| d.join("walrus_par.tls"))) else { return vec![] };
+    let syms: Vec<String> = std::fs::read_to_string(p).unwrap_or_default().lines().map(|l| l.trim().to_string()).filter(|l| !l.is_empty()).collect();
+    TLS_MODE.store(!syms.is_empty(), std::sync::atomic::Ordering::SeqCst);
+    syms
+}
+
 pub fn tainted() -> bool {
     TAINTED.load(std::sync::atomic::Ordering::SeqCst)
 }
@@ -777,7 +794,12 @@ mod simexec {
         entropy: Option<u64>,
         f: impl Fn() -> T + Send + Sync + 'static,
     ) -> SimOutcome<T> {
-        let knobs = knobs.clone();
+        let mut knobs = knobs.clone();
+        if tls_mode() {
+            knobs.edge_thin = 0;
+            knobs.log_thin = 0;
+            knobs.atomic_thin = 0;
+        }
         let shared = Arc::new(Mutex::new(Recorder::default()));
         let shared2 = shared.clone();
         let slot: Arc<Mutex<Option<T>>> = Arc::new(Mutex::new(None));
